@@ -12,23 +12,23 @@ import (
 
 // ---- C04, Go side of the specification: an ECMAScript resolver for binding programs written
 // independently of the Coq one (scope objects and maps instead of environments and counters),
-// the early-error check, the syntactic features under which /repo is known to deviate from
+// the early-error check, the syntactic c04Features under which /repo is known to deviate from
 // ECMAScript, program generators, the two end-to-end models and the oracle of the property text.
 
-func lexNames(l []*item) []int {
+func c04LexNames(l []*c04Item) []int {
 	var out []int
 	for _, it := range l {
-		if it.kind == kDecl && it.d == dLex {
+		if it.kind == c04KDecl && it.d == c04DLex {
 			out = append(out, it.x)
 		}
 	}
 	return out
 }
 
-func headNames(l []*item) []int {
+func c04HeadNames(l []*c04Item) []int {
 	var out []int
 	for _, it := range l {
-		if it.kind == kDecl && (it.d == dParam || it.d == dCatch) {
+		if it.kind == c04KDecl && (it.d == c04DParam || it.d == c04DCatch) {
 			out = append(out, it.x)
 		}
 	}
@@ -37,37 +37,37 @@ func headNames(l []*item) []int {
 
 // names that hoist to the enclosing function: var / function declarations of this list and of
 // nested blocks, loops and catch clauses
-func varNames(l []*item) []int {
+func c04VarNames(l []*c04Item) []int {
 	var out []int
 	for _, it := range l {
 		switch it.kind {
-		case kDecl:
-			if it.d == dVar || it.d == dFun {
+		case c04KDecl:
+			if it.d == c04DVar || it.d == c04DFun {
 				out = append(out, it.x)
 			}
-		case kBlock:
-			out = append(out, varNames(it.b)...)
-		case kFor, kCatch:
-			out = append(out, varNames(it.a)...)
-			out = append(out, varNames(it.b)...)
+		case c04KBlock:
+			out = append(out, c04VarNames(it.b)...)
+		case c04KFor, c04KCatch:
+			out = append(out, c04VarNames(it.a)...)
+			out = append(out, c04VarNames(it.b)...)
 		}
 	}
 	return out
 }
 
-type esScope struct {
+type c04EsScope struct {
 	id     int
 	names  map[int]bool
-	parent *esScope
+	parent *c04EsScope
 }
 
-type esResolver struct {
+type c04EsResolver struct {
 	next int
 	out  []string
 }
 
-func (e *esResolver) scope(parent *esScope, names ...[]int) *esScope {
-	s := &esScope{id: e.next, names: map[int]bool{}, parent: parent}
+func (e *c04EsResolver) scope(parent *c04EsScope, names ...[]int) *c04EsScope {
+	s := &c04EsScope{id: e.next, names: map[int]bool{}, parent: parent}
 	e.next++
 	for _, l := range names {
 		for _, n := range l {
@@ -77,7 +77,7 @@ func (e *esResolver) scope(parent *esScope, names ...[]int) *esScope {
 	return s
 }
 
-func esLookup(s *esScope, x int) string {
+func c04EsLookup(s *c04EsScope, x int) string {
 	for ; s != nil; s = s.parent {
 		if s.names[x] {
 			return fmt.Sprintf("%d:%d", s.id, x)
@@ -86,52 +86,52 @@ func esLookup(s *esScope, x int) string {
 	return fmt.Sprintf("g:%d", x)
 }
 
-func (e *esResolver) walk(l []*item, env, fs, cur *esScope) {
+func (e *c04EsResolver) walk(l []*c04Item, env, fs, cur *c04EsScope) {
 	for _, it := range l {
 		switch it.kind {
-		case kRef, kPRef:
-			e.out = append(e.out, esLookup(env, it.x))
-		case kDecl:
-			if it.d == dVar || it.d == dFun {
+		case c04KRef, c04KPRef:
+			e.out = append(e.out, c04EsLookup(env, it.x))
+		case c04KDecl:
+			if it.d == c04DVar || it.d == c04DFun {
 				e.out = append(e.out, fmt.Sprintf("%d:%d", fs.id, it.x))
 			} else {
 				e.out = append(e.out, fmt.Sprintf("%d:%d", cur.id, it.x))
 			}
-		case kBlock:
-			s := e.scope(env, lexNames(it.b))
+		case c04KBlock:
+			s := e.scope(env, c04LexNames(it.b))
 			e.walk(it.b, s, fs, s)
-		case kFunc, kArrow:
+		case c04KFunc, c04KArrow:
 			outer := env
-			if it.kind == kFunc && it.nm >= 0 {
+			if it.kind == c04KFunc && it.nm >= 0 {
 				n := e.scope(env, []int{it.nm})
 				e.out = append(e.out, fmt.Sprintf("%d:%d", n.id, it.nm))
 				outer = n
 			}
-			f := e.scope(outer, headNames(it.a))
+			f := e.scope(outer, c04HeadNames(it.a))
 			e.walk(it.a, f, f, f) // default values see every parameter, nothing of the body
-			for _, n := range append(varNames(it.b), lexNames(it.b)...) {
+			for _, n := range append(c04VarNames(it.b), c04LexNames(it.b)...) {
 				f.names[n] = true
 			}
 			e.walk(it.b, f, f, f)
-		case kArrowId:
-			f := e.scope(env, []int{it.x}, varNames(it.b), lexNames(it.b))
+		case c04KArrowId:
+			f := e.scope(env, []int{it.x}, c04VarNames(it.b), c04LexNames(it.b))
 			e.out = append(e.out, fmt.Sprintf("%d:%d", f.id, it.x))
 			e.walk(it.b, f, f, f)
-		case kParen:
+		case c04KParen:
 			e.walk(it.a, env, fs, cur)
-		case kFor:
-			h := e.scope(env, lexNames(it.a))
+		case c04KFor:
+			h := e.scope(env, c04LexNames(it.a))
 			e.walk(it.a, h, fs, h)
-			b := e.scope(h, lexNames(it.b))
+			b := e.scope(h, c04LexNames(it.b))
 			e.walk(it.b, b, fs, b)
-		case kCatch:
-			c := e.scope(env, headNames(it.a))
+		case c04KCatch:
+			c := e.scope(env, c04HeadNames(it.a))
 			e.walk(it.a, c, fs, c)
-			for _, n := range lexNames(it.b) {
+			for _, n := range c04LexNames(it.b) {
 				c.names[n] = true
 			}
 			e.walk(it.b, c, fs, c)
-		case kClass:
+		case c04KClass:
 			outer := env
 			if it.nm >= 0 {
 				k := e.scope(env, []int{it.nm})
@@ -143,16 +143,16 @@ func (e *esResolver) walk(l []*item, env, fs, cur *esScope) {
 	}
 }
 
-// esResolve: for every identifier occurrence, in source order, the declaration it denotes
+// c04EsResolve: for every identifier occurrence, in source order, the declaration it denotes
 // ("scope:name") or "g:name" when it is bound nowhere
-func esResolve(l []*item) []string {
-	e := &esResolver{}
-	m := e.scope(nil, varNames(l), lexNames(l))
+func c04EsResolve(l []*c04Item) []string {
+	e := &c04EsResolver{}
+	m := e.scope(nil, c04VarNames(l), c04LexNames(l))
 	e.walk(l, m, m, m)
 	return e.out
 }
 
-func canonStrings(l []string) []int64 {
+func c04CanonStrings(l []string) []int64 {
 	idx := map[string]int{}
 	out := make([]int64, len(l))
 	for i, s := range l {
@@ -166,7 +166,7 @@ func canonStrings(l []string) []int64 {
 	return out
 }
 
-func hasDup(l []int) bool {
+func c04HasDup(l []int) bool {
 	m := map[int]bool{}
 	for _, x := range l {
 		if m[x] {
@@ -177,7 +177,7 @@ func hasDup(l []int) bool {
 	return false
 }
 
-func intersects(a, b []int) bool {
+func c04Intersects(a, b []int) bool {
 	m := map[int]bool{}
 	for _, x := range a {
 		m[x] = true
@@ -192,39 +192,39 @@ func intersects(a, b []int) bool {
 
 // redeclaration early errors, with function declarations var-like everywhere (the property's
 // reading: "var and function hoisting to the enclosing function")
-func scopeOK(head []int, b []*item) bool {
-	lx := lexNames(b)
-	return !hasDup(lx) && !intersects(lx, varNames(b)) && !intersects(lx, head)
+func c04ScopeOK(head []int, b []*c04Item) bool {
+	lx := c04LexNames(b)
+	return !c04HasDup(lx) && !c04Intersects(lx, c04VarNames(b)) && !c04Intersects(lx, head)
 }
 
-func esOKrec(l []*item) bool {
+func c04EsOKrec(l []*c04Item) bool {
 	for _, it := range l {
 		switch it.kind {
-		case kBlock:
-			if !scopeOK(nil, it.b) || !esOKrec(it.b) {
+		case c04KBlock:
+			if !c04ScopeOK(nil, it.b) || !c04EsOKrec(it.b) {
 				return false
 			}
-		case kFunc, kArrow:
-			hn := headNames(it.a)
-			if hasDup(hn) || !scopeOK(hn, it.b) || !esOKrec(it.a) || !esOKrec(it.b) {
+		case c04KFunc, c04KArrow:
+			hn := c04HeadNames(it.a)
+			if c04HasDup(hn) || !c04ScopeOK(hn, it.b) || !c04EsOKrec(it.a) || !c04EsOKrec(it.b) {
 				return false
 			}
-		case kArrowId:
-			if !scopeOK([]int{it.x}, it.b) || !esOKrec(it.b) {
+		case c04KArrowId:
+			if !c04ScopeOK([]int{it.x}, it.b) || !c04EsOKrec(it.b) {
 				return false
 			}
-		case kParen, kClass:
-			if !esOKrec(it.a) {
+		case c04KParen, c04KClass:
+			if !c04EsOKrec(it.a) {
 				return false
 			}
-		case kFor:
-			hl := lexNames(it.a)
-			if hasDup(hl) || intersects(hl, varNames(it.b)) || !scopeOK(nil, it.b) || !esOKrec(it.a) || !esOKrec(it.b) {
+		case c04KFor:
+			hl := c04LexNames(it.a)
+			if c04HasDup(hl) || c04Intersects(hl, c04VarNames(it.b)) || !c04ScopeOK(nil, it.b) || !c04EsOKrec(it.a) || !c04EsOKrec(it.b) {
 				return false
 			}
-		case kCatch:
-			hn := headNames(it.a)
-			if hasDup(hn) || !scopeOK(hn, it.b) || !esOKrec(it.a) || !esOKrec(it.b) {
+		case c04KCatch:
+			hn := c04HeadNames(it.a)
+			if c04HasDup(hn) || !c04ScopeOK(hn, it.b) || !c04EsOKrec(it.a) || !c04EsOKrec(it.b) {
 				return false
 			}
 		}
@@ -232,47 +232,47 @@ func esOKrec(l []*item) bool {
 	return true
 }
 
-func esOK(l []*item) bool { return scopeOK(nil, l) && esOKrec(l) }
+func c04EsOK(l []*c04Item) bool { return c04ScopeOK(nil, l) && c04EsOKrec(l) }
 
-// ---- known deviations of /repo from ECMAScript, as syntactic features of the program ------------
+// ---- known deviations of /repo from ECMAScript, as syntactic c04Features of the program ------------
 
-// mentions: every name that occurs in l (over-approximation of "free in l")
-func mentions(l []*item, m map[int]bool) {
-	for _, x := range occNames(l, nil) {
+// c04Mentions: every name that occurs in l (over-approximation of "free in l")
+func c04Mentions(l []*c04Item, m map[int]bool) {
+	for _, x := range c04OccNames(l, nil) {
 		m[x] = true
 	}
 }
 
-func featuresRec(l []*item, f map[string]bool, oracle bool) {
+func c04FeaturesRec(l []*c04Item, f map[string]bool, oracle bool) {
 	for _, it := range l {
 		switch it.kind {
-		case kParen:
+		case c04KParen:
 			if oracle {
-				_, gs := groups(it.a)
+				_, gs := c04Groups(it.a)
 				for _, g := range gs {
-					if patternDefaultHazard(g, 4) {
+					if c04PatternDefaultHazard(g, 4) {
 						f["arrow-head-pattern-default"] = true
 					}
 				}
 			}
-		case kFunc, kArrow:
-			if oracle && it.kind == kFunc && restHazard(it.a) {
+		case c04KFunc, c04KArrow:
+			if oracle && it.kind == c04KFunc && c04RestHazard(it.a) {
 				f["rest-param-skips-markfuncargs"] = true
 			}
-			if oracle && it.kind == kArrow {
-				_, gs := groups(it.a)
+			if oracle && it.kind == c04KArrow {
+				_, gs := c04Groups(it.a)
 				for _, g := range gs {
-					if patternDefaultHazard(g, 5) {
+					if c04PatternDefaultHazard(g, 5) {
 						f["arrow-head-pattern-default"] = true
 					}
 				}
 			}
 			// default values that mention a later parameter, or a name the body declares
-			_, gs := groups(it.a)
+			_, gs := c04Groups(it.a)
 			later := map[int]bool{}
 			for i := len(gs) - 1; i >= 0; i-- {
 				m := map[int]bool{}
-				mentions(gs[i][1:], m)
+				c04Mentions(gs[i][1:], m)
 				for x := range m {
 					if later[x] {
 						f["fwd-param"] = true
@@ -282,66 +282,66 @@ func featuresRec(l []*item, f map[string]bool, oracle bool) {
 			}
 			m := map[int]bool{}
 			for _, g := range gs {
-				mentions(g[1:], m)
+				c04Mentions(g[1:], m)
 			}
-			for _, x := range append(varNames(it.b), lexNames(it.b)...) {
-				if m[x] && !later[x] && !(oracle && it.kind == kFunc && restHazard(it.a)) {
+			for _, x := range append(c04VarNames(it.b), c04LexNames(it.b)...) {
+				if m[x] && !later[x] && !(oracle && it.kind == c04KFunc && c04RestHazard(it.a)) {
 					f["default-captures-body-ref"] = true
 				}
 			}
-			if it.kind == kFunc && it.nm >= 0 {
-				for _, x := range append(append(varNames(it.b), lexNames(it.b)...), headNames(it.a)...) {
+			if it.kind == c04KFunc && it.nm >= 0 {
+				for _, x := range append(append(c04VarNames(it.b), c04LexNames(it.b)...), c04HeadNames(it.a)...) {
 					if x == it.nm {
 						f["funcexpr-name-redeclared"] = true
 					}
 				}
 			}
-		case kClass:
+		case c04KClass:
 			if it.nm >= 0 {
 				m := map[int]bool{}
-				mentions(it.a, m)
+				c04Mentions(it.a, m)
 				if m[it.nm] {
 					f["classexpr-name"] = true
 				}
 			}
-		case kCatch:
+		case c04KCatch:
 			// Annex B: var / function redeclaring the catch parameter; ECMAScript resolves references
 			// in the catch block to the parameter, /repo to whichever it finds first
-			if intersects(headNames(it.a), varNames(it.b)) {
+			if c04Intersects(c04HeadNames(it.a), c04VarNames(it.b)) {
 				f["catch-param-var-redeclared"] = true
 			}
 			// the catch parameter and the catch block share one Scope in /repo: a default value in
-			// the parameter pattern that mentions a name the block declares lexically
+			// the parameter pattern that c04Mentions a name the block declares lexically
 			{
 				m := map[int]bool{}
-				mentions(it.a, m)
-				for _, x := range lexNames(it.b) {
+				c04Mentions(it.a, m)
+				for _, x := range c04LexNames(it.b) {
 					if m[x] {
 						f["catch-head-ref-shadowed-in-body"] = true
 					}
 				}
 			}
-		case kFor:
-			// the loop head and the body block share one Scope in /repo: a name the head mentions
+		case c04KFor:
+			// the loop head and the body block share one Scope in /repo: a name the head c04Mentions
 			// (declaration or reference) and the body block declares lexically
 			m := map[int]bool{}
-			mentions(it.a, m)
-			for _, x := range lexNames(it.b) {
+			c04Mentions(it.a, m)
+			for _, x := range c04LexNames(it.b) {
 				if m[x] {
 					f["loop-head-shadowed-in-body"] = true
 				}
 			}
 		}
-		featuresRec(it.a, f, oracle)
-		featuresRec(it.b, f, oracle)
+		c04FeaturesRec(it.a, f, oracle)
+		c04FeaturesRec(it.b, f, oracle)
 	}
 }
 
-func features(l []*item) []string { return featuresMode(l, false) }
+func c04Features(l []*c04Item) []string { return c04FeaturesMode(l, false) }
 
-func featuresMode(l []*item, oracle bool) []string {
+func c04FeaturesMode(l []*c04Item, oracle bool) []string {
 	f := map[string]bool{}
-	featuresRec(l, f, oracle)
+	c04FeaturesRec(l, f, oracle)
 	var out []string
 	for k := range f {
 		out = append(out, k)
@@ -352,24 +352,24 @@ func featuresMode(l []*item, oracle bool) []string {
 
 // ---- program generators --------------------------------------------------------------------------
 
-type progGen struct {
+type c04ProgGen struct {
 	r     *Rng
 	names int
 	core  bool // only Block / Func (no name, no defaults) / Decl var,let,function,param / Ref
 	left  int
 }
 
-func (g *progGen) name() int { return g.r.Intn(g.names) }
+func (g *c04ProgGen) name() int { return g.r.Intn(g.names) }
 
-func (g *progGen) style() int { return g.r.Intn(1 << 20) }
+func (g *c04ProgGen) style() int { return g.r.Intn(1 << 20) }
 
-func (g *progGen) mk(kind int) *item { return &item{kind: kind, nm: -1, style: g.style()} }
+func (g *c04ProgGen) mk(kind int) *c04Item { return &c04Item{kind: kind, nm: -1, style: g.style()} }
 
-func (g *progGen) exprItem(depth int) *item {
+func (g *c04ProgGen) exprItem(depth int) *c04Item {
 	g.left--
 	x := g.r.Intn(100)
 	if depth <= 0 || g.left <= 0 || x < 45 {
-		it := g.mk(kRef)
+		it := g.mk(c04KRef)
 		it.x = g.name()
 		return it
 	}
@@ -377,19 +377,19 @@ func (g *progGen) exprItem(depth int) *item {
 	case x < 60:
 		return g.fn(depth, true)
 	case x < 70:
-		it := g.mk(kArrow)
+		it := g.mk(c04KArrow)
 		it.a = g.params(depth - 1)
 		it.b = g.stmts(depth-1, 3)
 		return it
 	case x < 80:
-		it := g.mk(kArrowId)
+		it := g.mk(c04KArrowId)
 		it.x = g.name()
 		it.b = g.stmts(depth-1, 3)
 		return it
 	case x < 92:
 		return g.paren(depth)
 	default:
-		it := g.mk(kClass)
+		it := g.mk(c04KClass)
 		if g.r.Bool() {
 			it.nm = g.name()
 		}
@@ -398,17 +398,17 @@ func (g *progGen) exprItem(depth int) *item {
 	}
 }
 
-func (g *progGen) exprItems(depth, max int) []*item {
+func (g *c04ProgGen) exprItems(depth, max int) []*c04Item {
 	n := g.r.Intn(max + 1)
-	var l []*item
+	var l []*c04Item
 	for i := 0; i < n; i++ {
 		l = append(l, g.exprItem(depth))
 	}
 	return l
 }
 
-func (g *progGen) fn(depth int, allowName bool) *item {
-	it := g.mk(kFunc)
+func (g *c04ProgGen) fn(depth int, allowName bool) *c04Item {
+	it := g.mk(c04KFunc)
 	if allowName && !g.core && g.r.Chance(1, 3) {
 		it.nm = g.name()
 	}
@@ -417,12 +417,12 @@ func (g *progGen) fn(depth int, allowName bool) *item {
 	return it
 }
 
-func (g *progGen) params(depth int) []*item {
-	var l []*item
+func (g *c04ProgGen) params(depth int) []*c04Item {
+	var l []*c04Item
 	n := g.r.Intn(3)
 	for i := 0; i < n; i++ {
-		d := g.mk(kDecl)
-		d.d = dParam
+		d := g.mk(c04KDecl)
+		d.d = c04DParam
 		d.x = g.name()
 		l = append(l, d)
 		if !g.core && g.r.Chance(1, 3) {
@@ -432,12 +432,12 @@ func (g *progGen) params(depth int) []*item {
 	return l
 }
 
-func (g *progGen) paren(depth int) *item {
-	it := g.mk(kParen)
+func (g *c04ProgGen) paren(depth int) *c04Item {
+	it := g.mk(c04KParen)
 	if g.r.Chance(2, 3) {
 		n := 1 + g.r.Intn(3)
 		for i := 0; i < n; i++ {
-			p := g.mk(kPRef)
+			p := g.mk(c04KPRef)
 			p.x = g.name()
 			it.a = append(it.a, p)
 			if g.r.Chance(1, 4) {
@@ -451,8 +451,8 @@ func (g *progGen) paren(depth int) *item {
 	return it
 }
 
-func (g *progGen) members(depth int) []*item {
-	var l []*item
+func (g *c04ProgGen) members(depth int) []*c04Item {
+	var l []*c04Item
 	n := g.r.Intn(3)
 	for i := 0; i < n; i++ {
 		if g.r.Bool() {
@@ -464,58 +464,58 @@ func (g *progGen) members(depth int) []*item {
 	return l
 }
 
-func (g *progGen) stmts(depth int, max int) []*item {
-	var l []*item
+func (g *c04ProgGen) stmts(depth int, max int) []*c04Item {
+	var l []*c04Item
 	n := g.r.Intn(max + 1)
 	for i := 0; i < n && g.left > 0; i++ {
 		g.left--
 		x := g.r.Intn(100)
-		decl := func(d int) *item {
-			it := g.mk(kDecl)
+		decl := func(d int) *c04Item {
+			it := g.mk(c04KDecl)
 			it.d = d
 			it.x = g.name()
 			return it
 		}
 		switch {
 		case x < 30 || depth <= 0:
-			it := g.mk(kRef)
+			it := g.mk(c04KRef)
 			it.x = g.name()
 			l = append(l, it)
 		case x < 40:
-			l = append(l, decl(dVar))
+			l = append(l, decl(c04DVar))
 		case x < 50:
-			l = append(l, decl(dLex))
+			l = append(l, decl(c04DLex))
 		case x < 57:
-			l = append(l, decl(dFun), g.fn(depth, false))
+			l = append(l, decl(c04DFun), g.fn(depth, false))
 		case x < 67:
-			it := g.mk(kBlock)
+			it := g.mk(c04KBlock)
 			it.b = g.stmts(depth-1, 4)
 			l = append(l, it)
 		case x < 74:
 			l = append(l, g.fn(depth, true))
 		case g.core:
-			it := g.mk(kRef)
+			it := g.mk(c04KRef)
 			it.x = g.name()
 			l = append(l, it)
 		case x < 79:
-			it := g.mk(kArrow)
+			it := g.mk(c04KArrow)
 			it.a = g.params(depth - 1)
 			it.b = g.stmts(depth-1, 3)
 			l = append(l, it)
 		case x < 83:
-			it := g.mk(kArrowId)
+			it := g.mk(c04KArrowId)
 			it.x = g.name()
 			it.b = g.stmts(depth-1, 3)
 			l = append(l, it)
 		case x < 88:
 			l = append(l, g.paren(depth))
 		case x < 93:
-			it := g.mk(kFor)
+			it := g.mk(c04KFor)
 			if g.r.Chance(2, 3) {
-				d := []int{dVar, dLex}[g.r.Intn(2)]
+				d := []int{c04DVar, c04DLex}[g.r.Intn(2)]
 				nd := 1 + g.r.Intn(2)
 				for j := 0; j < nd; j++ {
-					de := g.mk(kDecl)
+					de := g.mk(c04KDecl)
 					de.d = d
 					de.x = g.name()
 					it.a = append(it.a, de)
@@ -527,16 +527,16 @@ func (g *progGen) stmts(depth int, max int) []*item {
 			it.b = g.stmts(depth-1, 4)
 			l = append(l, it)
 		case x < 97:
-			b := g.mk(kBlock)
+			b := g.mk(c04KBlock)
 			b.b = g.stmts(depth-1, 2)
-			c := g.mk(kCatch)
+			c := g.mk(c04KCatch)
 			nc := g.r.Intn(3)
 			if nc == 2 && g.r.Bool() {
 				nc = 1
 			}
 			for j := 0; j < nc; j++ {
-				de := g.mk(kDecl)
-				de.d = dCatch
+				de := g.mk(c04KDecl)
+				de.d = c04DCatch
 				de.x = g.name()
 				c.a = append(c.a, de)
 				if g.r.Chance(1, 5) {
@@ -547,10 +547,10 @@ func (g *progGen) stmts(depth int, max int) []*item {
 			l = append(l, b, c)
 		default:
 			if g.r.Bool() {
-				l = append(l, decl(dLex))
+				l = append(l, decl(c04DLex))
 			}
-			it := g.mk(kClass)
-			if len(l) == 0 || l[len(l)-1].kind != kDecl {
+			it := g.mk(c04KClass)
+			if len(l) == 0 || l[len(l)-1].kind != c04KDecl {
 				if g.r.Bool() {
 					it.nm = g.name()
 				}
@@ -562,16 +562,16 @@ func (g *progGen) stmts(depth int, max int) []*item {
 	return l
 }
 
-func genProgram(r *Rng, size int, core bool) []*item {
-	g := &progGen{r: r, names: 2 + r.Intn(3), core: core, left: size}
+func c04GenProgram(r *Rng, size int, core bool) []*c04Item {
+	g := &c04ProgGen{r: r, names: 2 + r.Intn(3), core: core, left: size}
 	for try := 0; ; try++ {
 		g.left = size
 		l := g.stmts(2+r.Intn(3), 2+size/3)
-		if !renderable(l, 0) {
+		if !c04Renderable(l, 0) {
 			continue
 		}
 		// mostly programs without redeclaration errors
-		if esOK(l) || try > 6 || r.Chance(1, 8) {
+		if c04EsOK(l) || try > 6 || r.Chance(1, 8) {
 			return l
 		}
 	}
@@ -579,99 +579,99 @@ func genProgram(r *Rng, size int, core bool) []*item {
 
 // exhaustive small scope: every statement list of total size <= n over two names and the core
 // constructs plus one representative of every other construct
-func enumProgs(n int, emit func([]*item)) {
-	leaf := func(kind, d, x int) *item { return &item{kind: kind, d: d, x: x, nm: -1} }
+func c04EnumProgs(n int, emit func([]*c04Item)) {
+	leaf := func(kind, d, x int) *c04Item { return &c04Item{kind: kind, d: d, x: x, nm: -1} }
 	type shape struct {
 		size int
-		mk   func(body []*item) []*item
+		mk   func(body []*c04Item) []*c04Item
 	}
-	var rec func(budget int, prefix []*item)
-	bodies := func(budget int, f func([]*item)) {
-		var r2 func(b int, p []*item)
-		r2 = func(b int, p []*item) {
-			f(append([]*item{}, p...))
+	var rec func(budget int, prefix []*c04Item)
+	bodies := func(budget int, f func([]*c04Item)) {
+		var r2 func(b int, p []*c04Item)
+		r2 = func(b int, p []*c04Item) {
+			f(append([]*c04Item{}, p...))
 			if b <= 0 {
 				return
 			}
-			for _, lf := range []*item{leaf(kRef, 0, 0), leaf(kRef, 0, 1), leaf(kDecl, dVar, 0), leaf(kDecl, dLex, 0)} {
+			for _, lf := range []*c04Item{leaf(c04KRef, 0, 0), leaf(c04KRef, 0, 1), leaf(c04KDecl, c04DVar, 0), leaf(c04KDecl, c04DLex, 0)} {
 				r2(b-1, append(p, lf))
 			}
 			if b >= 2 {
 				// one level of nesting inside bodies
-				r2(b-2, append(p, &item{kind: kBlock, nm: -1, b: []*item{leaf(kRef, 0, 0)}}))
-				r2(b-2, append(p, &item{kind: kBlock, nm: -1, b: []*item{leaf(kDecl, dVar, 0)}}))
-				r2(b-2, append(p, &item{kind: kFunc, nm: -1, b: []*item{leaf(kRef, 0, 0)}}))
+				r2(b-2, append(p, &c04Item{kind: c04KBlock, nm: -1, b: []*c04Item{leaf(c04KRef, 0, 0)}}))
+				r2(b-2, append(p, &c04Item{kind: c04KBlock, nm: -1, b: []*c04Item{leaf(c04KDecl, c04DVar, 0)}}))
+				r2(b-2, append(p, &c04Item{kind: c04KFunc, nm: -1, b: []*c04Item{leaf(c04KRef, 0, 0)}}))
 			}
 		}
 		r2(budget, nil)
 	}
-	rec = func(budget int, prefix []*item) {
-		emit(append([]*item{}, prefix...))
+	rec = func(budget int, prefix []*c04Item) {
+		emit(append([]*c04Item{}, prefix...))
 		if budget <= 0 {
 			return
 		}
-		for _, lf := range []*item{leaf(kRef, 0, 0), leaf(kRef, 0, 1), leaf(kDecl, dVar, 0), leaf(kDecl, dLex, 0), leaf(kDecl, dLex, 1)} {
+		for _, lf := range []*c04Item{leaf(c04KRef, 0, 0), leaf(c04KRef, 0, 1), leaf(c04KDecl, c04DVar, 0), leaf(c04KDecl, c04DLex, 0), leaf(c04KDecl, c04DLex, 1)} {
 			rec(budget-1, append(prefix, lf))
 		}
 		if budget >= 2 {
-			bodies(budget-2, func(b []*item) {
-				rest := budget - 2 - len(flatSize(b))
-				rec(rest, append(prefix, leaf(kDecl, dFun, 0), &item{kind: kFunc, nm: -1, b: b}))
+			bodies(budget-2, func(b []*c04Item) {
+				rest := budget - 2 - len(c04FlatSize(b))
+				rec(rest, append(prefix, leaf(c04KDecl, c04DFun, 0), &c04Item{kind: c04KFunc, nm: -1, b: b}))
 			})
 		}
-		bodies(budget-1, func(b []*item) {
-			rest := budget - 1 - len(flatSize(b))
-			rec(rest, append(prefix, &item{kind: kBlock, nm: -1, b: b}))
-			rec(rest, append(prefix, &item{kind: kFunc, nm: -1, b: b}))
+		bodies(budget-1, func(b []*c04Item) {
+			rest := budget - 1 - len(c04FlatSize(b))
+			rec(rest, append(prefix, &c04Item{kind: c04KBlock, nm: -1, b: b}))
+			rec(rest, append(prefix, &c04Item{kind: c04KFunc, nm: -1, b: b}))
 			if rest >= 0 && budget >= 2 {
-				rec(rest-1, append(prefix, &item{kind: kFunc, nm: -1, a: []*item{leaf(kDecl, dParam, 0)}, b: b}))
-				rec(rest-1, append(prefix, &item{kind: kArrowId, x: 0, nm: -1, b: b}))
-				rec(rest-1, append(prefix, &item{kind: kFor, nm: -1, a: []*item{leaf(kDecl, dLex, 0)}, b: b}))
-				rec(rest-1, append(prefix, &item{kind: kFunc, nm: 0, b: b}))
+				rec(rest-1, append(prefix, &c04Item{kind: c04KFunc, nm: -1, a: []*c04Item{leaf(c04KDecl, c04DParam, 0)}, b: b}))
+				rec(rest-1, append(prefix, &c04Item{kind: c04KArrowId, x: 0, nm: -1, b: b}))
+				rec(rest-1, append(prefix, &c04Item{kind: c04KFor, nm: -1, a: []*c04Item{leaf(c04KDecl, c04DLex, 0)}, b: b}))
+				rec(rest-1, append(prefix, &c04Item{kind: c04KFunc, nm: 0, b: b}))
 			}
 		})
-		rec(budget-1, append(prefix, &item{kind: kParen, nm: -1, a: []*item{leaf(kPRef, 0, 0)}}))
+		rec(budget-1, append(prefix, &c04Item{kind: c04KParen, nm: -1, a: []*c04Item{leaf(c04KPRef, 0, 0)}}))
 		if budget >= 2 {
-			rec(budget-2, append(prefix, &item{kind: kParen, nm: -1, a: []*item{leaf(kPRef, 0, 0), leaf(kPRef, 0, 1)}}))
-			rec(budget-2, append(prefix, &item{kind: kBlock, nm: -1}, &item{kind: kCatch, nm: -1, a: []*item{leaf(kDecl, dCatch, 0)}, b: []*item{leaf(kDecl, dVar, 0)}}))
+			rec(budget-2, append(prefix, &c04Item{kind: c04KParen, nm: -1, a: []*c04Item{leaf(c04KPRef, 0, 0), leaf(c04KPRef, 0, 1)}}))
+			rec(budget-2, append(prefix, &c04Item{kind: c04KBlock, nm: -1}, &c04Item{kind: c04KCatch, nm: -1, a: []*c04Item{leaf(c04KDecl, c04DCatch, 0)}, b: []*c04Item{leaf(c04KDecl, c04DVar, 0)}}))
 		}
 	}
 	rec(n, nil)
 }
 
-// flatSize returns one element per item of l, nested ones included (only its length is used)
-func flatSize(l []*item) []int {
+// c04FlatSize returns one element per c04Item of l, nested ones included (only its length is used)
+func c04FlatSize(l []*c04Item) []int {
 	var out []int
 	for _, it := range l {
 		out = append(out, 0)
-		out = append(out, flatSize(it.a)...)
-		out = append(out, flatSize(it.b)...)
+		out = append(out, c04FlatSize(it.a)...)
+		out = append(out, c04FlatSize(it.b)...)
 	}
 	return out
 }
 
-func describeProg(l []*item) string { return renderProg(l, false) }
+func c04DescribeProg(l []*c04Item) string { return c04RenderProg(l, false) }
 
-func e2eCase(fn string, l []*item, note string) Case {
-	return Case{Fn: fn, Args: stylesOf(l, encodeProg(l, nil)), Note: note + renderProg(l, false)}
+func c04E2eCase(fn string, l []*c04Item, note string) Case {
+	return Case{Fn: fn, Args: c04StylesOf(l, c04EncodeProg(l, nil)), Note: note + c04RenderProg(l, false)}
 }
 
-func removeOne(l []*item, k *int) ([]*item, bool) {
+func c04RemoveOne(l []*c04Item, k *int) ([]*c04Item, bool) {
 	for i, it := range l {
 		if *k == 0 {
-			out := append(append([]*item{}, l[:i]...), l[i+1:]...)
+			out := append(append([]*c04Item{}, l[:i]...), l[i+1:]...)
 			return out, true
 		}
 		*k--
-		for _, sub := range []*[]*item{&it.a, &it.b} {
-			if nl, ok := removeOne(*sub, k); ok {
+		for _, sub := range []*[]*c04Item{&it.a, &it.b} {
+			if nl, ok := c04RemoveOne(*sub, k); ok {
 				c := *it
 				if sub == &it.a {
 					c.a = nl
 				} else {
 					c.b = nl
 				}
-				out := append([]*item{}, l...)
+				out := append([]*c04Item{}, l...)
 				out[i] = &c
 				return out, true
 			}
@@ -680,28 +680,28 @@ func removeOne(l []*item, k *int) ([]*item, bool) {
 	return l, false
 }
 
-func shrinkProg(c Case) []Case {
-	l := progOfCase(c)
+func c04ShrinkProg(c Case) []Case {
+	l := c04ProgOfCase(c)
 	var out []Case
 	for k := 0; k < 200; k++ {
 		kk := k
-		nl, ok := removeOne(l, &kk)
+		nl, ok := c04RemoveOne(l, &kk)
 		if !ok {
 			break
 		}
-		if !renderable(nl, 0) {
+		if !c04Renderable(nl, 0) {
 			continue
 		}
-		out = append(out, e2eCase(c.Fn, nl, "shrunk: "))
+		out = append(out, c04E2eCase(c.Fn, nl, "shrunk: "))
 	}
 	return out
 }
 
-func e2eClass(c Case, out []int64) string {
-	l := progOfCase(c)
+func c04E2eClass(c Case, out []int64) string {
+	l := c04ProgOfCase(c)
 	kinds := map[int]bool{}
-	var rec func(l []*item)
-	rec = func(l []*item) {
+	var rec func(l []*c04Item)
+	rec = func(l []*c04Item) {
 		for _, it := range l {
 			kinds[it.kind] = true
 			rec(it.a)
@@ -711,11 +711,11 @@ func e2eClass(c Case, out []int64) string {
 	rec(l)
 	s := "core"
 	for k := range kinds {
-		if k != kRef && k != kDecl && k != kBlock && k != kFunc {
+		if k != c04KRef && k != c04KDecl && k != c04KBlock && k != c04KFunc {
 			s = "full"
 		}
 	}
-	if f := features(l); len(f) > 0 {
+	if f := c04Features(l); len(f) > 0 {
 		s += "/quirk"
 	}
 	switch {
@@ -731,71 +731,71 @@ func e2eClass(c Case, out []int64) string {
 	return s
 }
 
-var scopeE2EAlgoModel = &Model{
+var c04ScopeE2EAlgoModel = &Model{
 	Name: "scope_e2e_algo",
 	Gen: func(r *Rng, tier string, emit func(Case)) {
 		k, n := 4, 4000
 		if tier == "thorough" {
 			k, n = 5, 200000
 		}
-		enumProgs(k, func(l []*item) {
-			if renderable(l, 0) {
-				emit(e2eCase("scope_e2e_algo", l, "exhaustive: "))
+		c04EnumProgs(k, func(l []*c04Item) {
+			if c04Renderable(l, 0) {
+				emit(c04E2eCase("scope_e2e_algo", l, "exhaustive: "))
 			}
 		})
 		for i := 0; i < n; i++ {
-			l := genProgram(r, 3+i%30, i%4 == 0)
-			emit(e2eCase("scope_e2e_algo", l, "random: "))
+			l := c04GenProgram(r, 3+i%30, i%4 == 0)
+			emit(c04E2eCase("scope_e2e_algo", l, "random: "))
 		}
 	},
-	Impl:   e2eAlgoImpl,
-	Shrink: shrinkProg,
-	Class:  e2eClass,
+	Impl:   c04E2eAlgoImpl,
+	Shrink: c04ShrinkProg,
+	Class:  c04E2eClass,
 }
 
-var scopeE2ESpecModel = &Model{
+var c04ScopeE2ESpecModel = &Model{
 	Name: "scope_e2e_spec",
 	Gen: func(r *Rng, tier string, emit func(Case)) {
 		k, n := 4, 4000
 		if tier == "thorough" {
 			k, n = 5, 200000
 		}
-		enumProgs(k, func(l []*item) {
-			if renderable(l, 0) && len(features(l)) == 0 {
-				emit(e2eCase("scope_e2e_spec", l, "exhaustive: "))
+		c04EnumProgs(k, func(l []*c04Item) {
+			if c04Renderable(l, 0) && len(c04Features(l)) == 0 {
+				emit(c04E2eCase("scope_e2e_spec", l, "exhaustive: "))
 			}
 		})
 		for i := 0; i < n; i++ {
-			l := genProgram(r, 3+i%30, i%4 == 0)
-			if len(features(l)) == 0 {
-				emit(e2eCase("scope_e2e_spec", l, "random: "))
+			l := c04GenProgram(r, 3+i%30, i%4 == 0)
+			if len(c04Features(l)) == 0 {
+				emit(c04E2eCase("scope_e2e_spec", l, "random: "))
 			}
 		}
 	},
-	Impl:   e2eSpecImpl,
-	Shrink: shrinkProg,
-	Class:  e2eClass,
+	Impl:   c04E2eSpecImpl,
+	Shrink: c04ShrinkProg,
+	Class:  c04E2eClass,
 }
 
-// inCore: the fragment the Coq label machine (and resolution_correct) covers: Block, anonymous
+// c04InCore: the fragment the Coq label machine (and resolution_correct) covers: Block, anonymous
 // Func whose parameter list has no default values, Decl var/let/function/param, Ref
-func inCore(l []*item, ctx int) bool {
+func c04InCore(l []*c04Item, ctx int) bool {
 	for _, it := range l {
 		switch it.kind {
-		case kRef:
+		case c04KRef:
 			if ctx != 0 {
 				return false
 			}
-		case kDecl:
-			if ctx == 1 && it.d != dParam || ctx == 0 && (it.d == dParam || it.d == dCatch) {
+		case c04KDecl:
+			if ctx == 1 && it.d != c04DParam || ctx == 0 && (it.d == c04DParam || it.d == c04DCatch) {
 				return false
 			}
-		case kBlock:
-			if ctx != 0 || !inCore(it.b, 0) {
+		case c04KBlock:
+			if ctx != 0 || !c04InCore(it.b, 0) {
 				return false
 			}
-		case kFunc:
-			if ctx != 0 || it.nm >= 0 || !inCore(it.a, 1) || !inCore(it.b, 0) {
+		case c04KFunc:
+			if ctx != 0 || it.nm >= 0 || !c04InCore(it.a, 1) || !c04InCore(it.b, 0) {
 				return false
 			}
 		default:
@@ -805,15 +805,15 @@ func inCore(l []*item, ctx int) bool {
 	return true
 }
 
-func e2eAMImpl(c Case) []int64 {
-	l := progOfCase(c)
-	out, p, _ := e2eObserve(l, false)
+func c04E2eAMImpl(c Case) []int64 {
+	l := c04ProgOfCase(c)
+	out, p, _ := c04E2eObserve(l, false)
 	if len(out) == 0 || out[0] != 1 {
 		return out
 	}
 	n := int(out[1])
 	res := append([]int64{}, out[:2+n]...)
-	_, reps := canonVars(p.roots)
+	_, reps := c04CanonVars(p.roots)
 	for _, r := range reps {
 		g := int64(0)
 		if r.Decl == js.NoDecl {
@@ -824,45 +824,45 @@ func e2eAMImpl(c Case) []int64 {
 	return res
 }
 
-var scopeE2EAMModel = &Model{
+var c04ScopeE2EAMModel = &Model{
 	Name: "scope_e2e_am",
 	Gen: func(r *Rng, tier string, emit func(Case)) {
 		k, n := 4, 6000
 		if tier == "thorough" {
 			k, n = 5, 200000
 		}
-		enumProgs(k, func(l []*item) {
-			if renderable(l, 0) && inCore(l, 0) {
-				emit(e2eCase("scope_e2e_am", l, "exhaustive: "))
+		c04EnumProgs(k, func(l []*c04Item) {
+			if c04Renderable(l, 0) && c04InCore(l, 0) {
+				emit(c04E2eCase("scope_e2e_am", l, "exhaustive: "))
 			}
 		})
 		for i := 0; i < n; i++ {
-			l := genProgram(r, 3+i%40, true)
-			if inCore(l, 0) {
-				emit(e2eCase("scope_e2e_am", l, "random: "))
+			l := c04GenProgram(r, 3+i%40, true)
+			if c04InCore(l, 0) {
+				emit(c04E2eCase("scope_e2e_am", l, "random: "))
 			}
 		}
 	},
-	Impl:   e2eAMImpl,
-	Shrink: shrinkProg,
-	Class:  e2eClass,
+	Impl:   c04E2eAMImpl,
+	Shrink: c04ShrinkProg,
+	Class:  c04E2eClass,
 }
 
 // ---- oracle: the property text on the implementation ---------------------------------------------
 
-func collectAll(p *parsed) []*js.Var {
+func c04CollectAll(p *c04Parsed) []*js.Var {
 	var occ []*js.Var
-	collectVars(reflect.ValueOf(p.ast.List), &occ)
+	c04CollectVars(reflect.ValueOf(p.ast.List), &occ)
 	return occ
 }
 
-func printJS(ast *js.AST) string {
+func c04PrintJS(ast *js.AST) string {
 	var buf bytes.Buffer
 	ast.JS(&buf)
 	return buf.String()
 }
 
-func countWord(s, w string) int {
+func c04CountWord(s, w string) int {
 	n := 0
 	for i := 0; ; {
 		j := strings.Index(s[i:], w)
@@ -879,22 +879,22 @@ func c04Oracle(r *Rng, tier string, rep *Report) {
 	if tier == "thorough" {
 		n = 300000
 	}
-	check := func(l []*item, origin string) {
-		if !renderable(l, 0) {
+	check := func(l []*c04Item, origin string) {
+		if !c04Renderable(l, 0) {
 			return
 		}
-		src := renderProgOracle(l)
-		feats := featuresMode(l, true)
+		src := c04RenderProgOracle(l)
+		feats := c04FeaturesMode(l, true)
 		bucket := "plain"
 		if len(feats) > 0 {
 			bucket = strings.Join(feats, "+")
 		}
-		ok := esOK(l)
+		ok := c04EsOK(l)
 		if !ok {
 			bucket = "early-error"
 		}
-		replay := map[string]interface{}{"source": src, "program": fmtInts(encodeProg(l, nil)), "origin": origin}
-		p := parseJS(src)
+		replay := map[string]interface{}{"source": src, "program": fmtInts(c04EncodeProg(l, nil)), "origin": origin}
+		p := c04ParseJS(src)
 		if p.pan != nil {
 			rep.Violate("c04-panic:"+src, fmt.Sprintf("js.Parse panics on %q: %v", src, p.pan), replay)
 			rep.Eval(src, true, "panic")
@@ -906,7 +906,7 @@ func c04Oracle(r *Rng, tier string, rep *Report) {
 		}
 		if p.err != nil {
 			// a deviation is attributed to a known finding only when exactly one of the known
-			// features is present; with none it is a new violation
+			// c04Features is present; with none it is a new violation
 			switch len(feats) {
 			case 0:
 				rep.Violate("c04-reject:unclassified:"+src, fmt.Sprintf("a program without redeclaration error is rejected: %q: %v", src, p.err), replay)
@@ -916,26 +916,26 @@ func c04Oracle(r *Rng, tier string, rep *Report) {
 			rep.Eval(src, true, "rejected/"+bucket)
 			return
 		}
-		want := occNames(l, nil)
+		want := c04OccNames(l, nil)
 		if len(want) != len(p.occ) {
 			rep.Violate("c04-harness:occurrences", fmt.Sprintf("%q: expected %d identifier occurrences, tree has %d", src, len(want), len(p.occ)), replay)
 			return
 		}
 		// (1) ECMAScript resolution: same partition, globals are undeclared variables of the module scope
-		es := esResolve(l)
-		esCanon := canonStrings(es)
-		implCanon, reps := canonVars(p.roots)
+		es := c04EsResolve(l)
+		esCanon := c04CanonStrings(es)
+		implCanon, reps := c04CanonVars(p.roots)
 		nontrivial := len(reps) < len(p.roots) && len(reps) > 1
 		mismatch := ""
 		if fmtInts(esCanon) != fmtInts(implCanon) {
-			mismatch = fmt.Sprintf("occurrences %v: ECMAScript partition %v, *Var partition %v", namesOf(want), esCanon, implCanon)
+			mismatch = fmt.Sprintf("occurrences %v: ECMAScript partition %v, *Var partition %v", c04NamesOf(want), esCanon, implCanon)
 		} else {
 			for i, t := range es {
 				root := p.roots[i]
 				if strings.HasPrefix(t, "g:") != (root.Decl == js.NoDecl) {
-					mismatch = fmt.Sprintf("occurrence %d (%s): resolves to %s but Decl=%v", i, jsName(want[i]), t, root.Decl)
-				} else if strings.HasPrefix(t, "g:") && inVarList(root, p.ast.Scope.Undeclared) == 0 {
-					mismatch = fmt.Sprintf("occurrence %d (%s) is bound nowhere but its Var is not an undeclared variable of the outermost scope", i, jsName(want[i]))
+					mismatch = fmt.Sprintf("occurrence %d (%s): resolves to %s but Decl=%v", i, c04JsName(want[i]), t, root.Decl)
+				} else if strings.HasPrefix(t, "g:") && c04InVarList(root, p.ast.Scope.Undeclared) == 0 {
+					mismatch = fmt.Sprintf("occurrence %d (%s) is bound nowhere but its Var is not an undeclared variable of the outermost scope", i, c04JsName(want[i]))
 				}
 			}
 		}
@@ -959,7 +959,7 @@ func c04Oracle(r *Rng, tier string, rep *Report) {
 			}
 		}
 		// (3) rename every declared Var, print, count, re-parse, compare structure
-		before := printJS(p.ast)
+		before := c04PrintJS(p.ast)
 		orig := map[*js.Var][]byte{}
 		fresh := map[*js.Var]string{}
 		for i, v := range reps {
@@ -969,17 +969,17 @@ func c04Oracle(r *Rng, tier string, rep *Report) {
 				v.Data = []byte(fresh[v])
 			}
 		}
-		renamed := printJS(p.ast)
+		renamed := c04PrintJS(p.ast)
 		for v, f := range fresh {
-			if c := countWord(renamed, f); c != int(v.Uses) {
+			if c := c04CountWord(renamed, f); c != int(v.Uses) {
 				rep.Violate("c04-print-count:"+src, fmt.Sprintf("%q: Var %s (renamed %s) has Uses=%d but its name is printed %d times in %q", src, orig[v], f, v.Uses, c, renamed), replay)
 			}
 		}
-		p2 := parseJS(renamed)
+		p2 := c04ParseJS(renamed)
 		if p2.pan != nil || p2.err != nil {
 			rep.Violate("c04-rename-reparse:"+src, fmt.Sprintf("%q renamed to %q does not parse: %v %v", src, renamed, p2.err, p2.pan), replay)
 		} else {
-			c2, reps2 := canonVars(p2.roots)
+			c2, reps2 := c04CanonVars(p2.roots)
 			if fmtInts(c2) != fmtInts(implCanon) {
 				rep.Violate("c04-rename-structure:"+src, fmt.Sprintf("%q renamed to %q: partition %v became %v", src, renamed, implCanon, c2), replay)
 			} else {
@@ -994,30 +994,30 @@ func c04Oracle(r *Rng, tier string, rep *Report) {
 						v.Data = o
 					}
 				}
-				if back := printJS(p2.ast); back != before {
+				if back := c04PrintJS(p2.ast); back != before {
 					rep.Violate("c04-rename-roundtrip:"+src, fmt.Sprintf("%q: renaming, re-parsing and renaming back prints %q instead of %q", src, back, before), replay)
 				}
 			}
 		}
 		rep.Eval(src, nontrivial, bucket)
 	}
-	enumProgs(3, func(l []*item) { check(l, "exhaustive") })
+	c04EnumProgs(3, func(l []*c04Item) { check(l, "exhaustive") })
 	for i := 0; i < n; i++ {
-		check(genProgram(r, 4+i%40, i%5 == 0), "random")
+		check(c04GenProgram(r, 4+i%40, i%5 == 0), "random")
 	}
 }
 
-func namesOf(l []int) []string {
+func c04NamesOf(l []int) []string {
 	var out []string
 	for _, x := range l {
-		out = append(out, jsName(x))
+		out = append(out, c04JsName(x))
 	}
 	return out
 }
 
 func init() {
 	props["C04"] = &PropSpec{
-		Models:  []*Model{scopeAPIModel, scopeE2EAlgoModel, scopeE2ESpecModel, scopeE2EAMModel},
+		Models:  []*Model{c04ScopeAPIModel, c04ScopeE2EAlgoModel, c04ScopeE2ESpecModel, c04ScopeE2EAMModel},
 		Oracles: []*Oracle{{Name: "c04-rename-reprint", Run: c04Oracle}},
 	}
 }
